@@ -39,7 +39,7 @@ def worker(arg):
     consistent = st["out"]
     diff = []
     placements = ["target"]
-    if len(defs) == 2 and hash(block) % 4 == 0:
+    if len(defs) == 2 and core.pick(block, "placement", 4) == 0:
         placements.append("lookup-referenced")
     for pl in placements:
         fs = files_of(defs)
